@@ -23,6 +23,7 @@ pub struct Dev {
     pub operation: EventRegister,
     pub questionable: EventRegister,
     pub errors: scpi::error::VecErrorQueue,   // the library's own alloc queue
+    pub bounded: Option<arrayvec::ArrayVec<Error, 4>>,   // shadow device: the library's fixed-capacity queue instead
     pub tst: Option<Error>,
     pub hook_calls: usize,
 }
@@ -30,7 +31,7 @@ pub struct Dev {
 impl Dev {
     pub fn new() -> Self {
         Dev { esr: 0, ese: 0, sre: 0, operation: EventRegister::default(), questionable: EventRegister::default(),
-              errors: Vec::new(), tst: None, hook_calls: 0 }
+              errors: Vec::new(), bounded: None, tst: None, hook_calls: 0 }
     }
 }
 
@@ -64,10 +65,10 @@ impl GetEventRegister<Questionable> for Dev {
     fn register_mut(&mut self) -> &mut EventRegister { &mut self.questionable }
 }
 impl ErrorQueue for Dev {
-    fn push_back_error(&mut self, err: Error) { self.errors.push_back_error(err); }
-    fn pop_front_error(&mut self) -> Option<Error> { self.errors.pop_front_error() }
-    fn num_errors(&self) -> usize { self.errors.num_errors() }
-    fn clear_errors(&mut self) { self.errors.clear_errors() }
+    fn push_back_error(&mut self, err: Error) { match &mut self.bounded { Some(q) => q.push_back_error(err), None => self.errors.push_back_error(err) } }
+    fn pop_front_error(&mut self) -> Option<Error> { match &mut self.bounded { Some(q) => q.pop_front_error(), None => self.errors.pop_front_error() } }
+    fn num_errors(&self) -> usize { match &self.bounded { Some(q) => q.num_errors(), None => self.errors.num_errors() } }
+    fn clear_errors(&mut self) { match &mut self.bounded { Some(q) => q.clear_errors(), None => self.errors.clear_errors() } }
 }
 impl ScpiDevice for Dev {}
 
@@ -101,6 +102,33 @@ pub const TREE: Node<Dev> = Root![
     Leaf { name: b"*ERR", default: false, handler: &ErrCommand }
 ];
 
+/// the same tree with the STATus branch built BY HAND from the documented command aliases (StatOper*Command /
+/// StatQues*Command) instead of the scpi_status! macro: both must behave alike
+pub const TREE_ALIAS: Node<Dev> = Root![
+    ieee488_cls!(), ieee488_ese!(), ieee488_esr!(), ieee488_idn!(b"Example Inc", b"T800-101", b"0", b"0"), ieee488_opc!(), ieee488_rst!(),
+    ieee488_sre!(), ieee488_stb!(), ieee488_tst!(), ieee488_wai!(),
+    Branch { name: b"STATus", default: false, sub: &[
+        Branch { name: b"OPERation", default: false, sub: &[
+            Leaf { name: b"EVENt", default: true, handler: &scpi_contrib::scpi1999::status::operation::StatOperEventCommand::new() },
+            Leaf { name: b"CONDition", default: false, handler: &scpi_contrib::scpi1999::status::operation::StatOperConditionCommand::new() },
+            Leaf { name: b"ENABle", default: false, handler: &scpi_contrib::scpi1999::status::operation::StatOperEnableCommand::new() },
+            Leaf { name: b"NTRansition", default: false, handler: &scpi_contrib::scpi1999::status::operation::StatOperNTransitionCommand::new() },
+            Leaf { name: b"PTRansition", default: false, handler: &scpi_contrib::scpi1999::status::operation::StatOperPTransitionCommand::new() } ] },
+        Branch { name: b"QUEStionable", default: false, sub: &[
+            Leaf { name: b"EVENt", default: true, handler: &scpi_contrib::scpi1999::status::questionable::StatQuesEventCommand::new() },
+            Leaf { name: b"CONDition", default: false, handler: &scpi_contrib::scpi1999::status::questionable::StatQuesConditionCommand::new() },
+            Leaf { name: b"ENABle", default: false, handler: &scpi_contrib::scpi1999::status::questionable::StatQuesEnableCommand::new() },
+            Leaf { name: b"NTRansition", default: false, handler: &scpi_contrib::scpi1999::status::questionable::StatQuesNTransitionCommand::new() },
+            Leaf { name: b"PTRansition", default: false, handler: &scpi_contrib::scpi1999::status::questionable::StatQuesPTransitionCommand::new() } ] },
+        Leaf { name: b"PRESet", default: false, handler: &scpi_contrib::scpi1999::status::StatPresetCommand } ] },
+    scpi_system!(),
+    Leaf { name: b"*ERR", default: false, handler: &ErrCommand }
+];
+
+fn regs_only(d: &Dev) -> String {
+    format!("esr={};ese={};sre={};o={};u={}", d.esr, d.ese, d.sre, reg(&d.operation), reg(&d.questionable))
+}
+
 fn reg(r: &EventRegister) -> String {
     format!("{},{},{},{},{}", r.condition, r.event, r.enable, r.ntr_filter, r.ptr_filter)
 }
@@ -122,6 +150,12 @@ fn run_mode(args: &[&str], count_allocs: bool) -> String {
     let mut ctx = Context::new();
     let mut d = Dev::new();
     if count_allocs { d.errors.reserve(4096); }
+    // shadow devices (not under the allocation counter): (a) the hand-built alias tree, which must behave exactly like
+    // the macro-built one; (b) a device with the library's fixed-capacity queue (4 entries), whose ESR / ESE / SRE /
+    // status registers must not depend on the capacity of the error queue
+    let mut da = Dev::new(); let mut ctxa = Context::new();
+    let mut db = Dev::new(); db.bounded = Some(arrayvec::ArrayVec::new()); let mut ctxb = Context::new();
+    let shadows = !count_allocs;
     let mut out = Vec::new();
     for step in args.get(0).unwrap_or(&"").split('|') {
         if step.is_empty() { continue; }
@@ -134,32 +168,48 @@ fn run_mode(args: &[&str], count_allocs: bool) -> String {
                 d.hook_calls = 0;
                 let before = crate::k_tree::allocs();
                 let r = TREE.run(&msg, &mut d, &mut ctx, &mut resp);
+                let mut shadow_note = String::new();
+                if shadows {
+                    ctxa.mav = ctx.mav; ctxb.mav = ctx.mav;
+                    let mut ra: Vec<u8> = Vec::new(); da.hook_calls = 0;
+                    let xa = TREE_ALIAS.run(&msg, &mut da, &mut ctxa, &mut ra);
+                    if xa != r || ra != resp || state(&da) != { let keep = d.hook_calls; let s = state(&d); d.hook_calls = keep; s } {
+                        shadow_note.push_str(&format!(" ALIAS-TREE-DIFFERS[{}]", regs_only(&da)));
+                    }
+                    let mut rb: Vec<u8> = Vec::new();
+                    let _ = TREE.run(&msg, &mut db, &mut ctxb, &mut rb);
+                    if regs_only(&db) != regs_only(&d) { shadow_note.push_str(&format!(" BOUNDED-QUEUE-DEVICE-DIFFERS[{}]", regs_only(&db))); }
+                }
                 if count_allocs {
                     out.push(format!("a={}", crate::k_tree::allocs() - before));
                     continue;
                 }
                 match r {
-                    Ok(()) => out.push(format!("OK {} {}", hex(&resp), state(&d))),
-                    Err(e) => out.push(format!("{} - {}", show_error(&e), state(&d))),
+                    Ok(()) => out.push(format!("OK {} {}{}", hex(&resp), state(&d), shadow_note)),
+                    Err(e) => out.push(format!("{} - {}{}", show_error(&e), state(&d), shadow_note)),
                 }
             }
             b'c' => {
                 let v: u16 = val.parse().unwrap();
                 d.hook_calls = 0;
-                if head.as_bytes()[1] == b'o' { d.operation.set_condition(v) } else { d.questionable.set_condition(v) }
+                if head.as_bytes()[1] == b'o' { d.operation.set_condition(v); da.operation.set_condition(v); db.operation.set_condition(v) }
+                else { d.questionable.set_condition(v); da.questionable.set_condition(v); db.questionable.set_condition(v) }
                 out.push(format!("- - {}", state(&d)));
             }
             b'b' | b'x' => {
                 // b<o|q>:<mask> set_condition_bits, x<o|q>:<mask> clear_condition_bits
                 let v: u16 = val.parse().unwrap();
                 d.hook_calls = 0;
-                let r = if head.as_bytes()[1] == b'o' { &mut d.operation } else { &mut d.questionable };
-                if head.as_bytes()[0] == b'b' { r.set_condition_bits(v) } else { r.clear_condition_bits(v) }
+                for dev in [&mut d, &mut da, &mut db] {
+                    let r = if head.as_bytes()[1] == b'o' { &mut dev.operation } else { &mut dev.questionable };
+                    if head.as_bytes()[0] == b'b' { r.set_condition_bits(v) } else { r.clear_condition_bits(v) }
+                }
                 out.push(format!("- - {}", state(&d)));
             }
             b't' => {
                 d.hook_calls = 0;
                 d.tst = if val == "N" { None } else { Some(parse_error(val)) };
+                da.tst = d.tst; db.tst = d.tst;
                 out.push(format!("- - {}", state(&d)));
             }
             _ => panic!("bad step"),
